@@ -320,3 +320,34 @@ def _ins_wl_staging(p):
 def _q_rise_curve(p, rows):
     """The measured rise master curve (storage, level), ascending in level (one row per grid level)."""
     ensures(forall(0, len(rows), lambda j: forall(0, j, lambda i: rows[i][1] < rows[j][1])))
+
+
+# --------------------------------------------------------------------------- simulate_recession
+
+@sql("""SELECT EXISTS (SELECT 1 FROM curvature WHERE is_valid)""", rows="tuple[int]", one_row=True)
+def _q_curvature_set(p, rows):
+    ensures(rows[0][0] == 0 or rows[0][0] == 1)
+
+
+@sql("""SELECT curvature_m_km2 FROM curvature""", rows="tuple[real]")
+def _q_curvature(p, rows):
+    """curvature is a singleton (is_valid is its primary key and is 1)."""
+    ensures(len(rows) <= 1)
+    ensures(forall(0, len(rows), lambda i: rows[i][0] == uf_real("site_curvature_m_km2")))
+
+
+@sql("""SELECT CAST(elapsed_time_s AS double precision) / (3600 * 24) AS elapsed_time_d, zeta_mm / 10 AS zeta_cm
+        FROM average_recession_time ORDER BY zeta_mm""", rows="tuple[real,real]")
+def _q_recession_curve(p, rows):
+    """The measured recession master curve (elapsed time in days, level in cm), ascending in level."""
+    ensures(forall(0, len(rows), lambda j: forall(0, j, lambda i: rows[i][1] < rows[j][1])))
+
+
+@sql("""SELECT avg(evapotranspiration_mm_h) * 24 AS evapotranspiration_mm_d FROM recession_interval AS ri
+        JOIN zeta_interval AS zi ON zi.start_epoch = ri.start_epoch AND zi.interval_type = ri.interval_type
+        JOIN evapotranspiration AS e ON e.from_epoch >= zi.start_epoch AND e.from_epoch < zi.thru_epoch""",
+     rows="tuple[real]", one_row=True)
+def _q_mean_recession_et(p, rows):
+    """Mean evapotranspiration over the steps of the recession intervals, in mm/d (an aggregate: exactly one row;
+    NULL -- no recession interval at all -- is not modelled)."""
+    ensures(rows[0][0] == uf_real("mean_recession_et_mm_d"))
